@@ -124,8 +124,10 @@ func (wtr *JSONWtr) container(lvl int) node.Node {
 		if wtr.Pretty {
 			wtr._out.WriteString("\n")
 			end := 2 * lvl
-			if end > len(padding) {
-				panic("too deep nesting")
+			for end > len(padding) {
+				// deeper than the prepared indentation
+				wtr._out.WriteString(padding)
+				end -= len(padding)
 			}
 			wtr._out.WriteString(padding[0:end])
 		}
